@@ -13,6 +13,7 @@ func init() {
 		sg := xt.Load(filepath.Join(repo, "grogu/signaller"))
 		sb := xt.Load(filepath.Join(repo, "grogu/submitter"))
 		fk := xt.Load(filepath.Join(repo, "x/feeds/keeper"))
+		qr := xt.Load(filepath.Join(repo, "grogu/querier"))
 		l := xt.NewLean(filepath.Join(out, "Grogu.lean"), "grogu signaller/submitter and feeds SubmitSignalPrices: constants and function sources")
 		l.P("namespace BandVerif.Generated.Grogu")
 		l.P("def fixedIntervalOffset : Int := %s", sg.Int("FixedIntervalOffset").String())
@@ -34,6 +35,7 @@ func init() {
 		src("submitPrice", sb, "Submitter", "submitPrice")
 		src("removePending", sb, "Submitter", "removePending")
 		src("SubmitSignalPrices", fk, "msgServer", "SubmitSignalPrices")
+		src("getMaxBlockHeightResponse", qr, "", "getMaxBlockHeightResponse")
 		l.P("end BandVerif.Generated.Grogu")
 		l.Write()
 	})
